@@ -311,8 +311,101 @@ func (env *Env) ident(name string) Val {
 	return env.fail("unknown identifier %s", name)
 }
 
+// ghost two-level maps (`ghost var name map2`): (object, key) -> Int, e.g. the attributes of ClassAd objects that live
+// outside the modelled heap. In specs: name[obj][key]; as an assigns target: name[obj] (the whole row of obj).
+var tGhostMap2 = types.NewMap(types.Typ[types.Int], types.NewMap(types.Typ[types.Int], types.Typ[types.Int]))
+var tGhostRow = types.NewMap(types.Typ[types.Int], types.Typ[types.Int])
+
+func ghostSort(gv *GhostVar) Sort {
+	if gv.Type == "map2" {
+		return arrSort(SInt, arrSort(SInt, SInt))
+	}
+	return comps(ghostType(gv))[0].Sort
+}
+
+// hasUnresolvable reports whether the expression has a free identifier that this environment cannot resolve
+// (quantifier-bound variables, callee names of spec functions and selector field names are not free identifiers).
+func (env *Env) hasUnresolvable(e ast.Expr) bool {
+	tr := env.tr
+	bound := map[string]bool{}
+	bad := false
+	var walk func(n ast.Node)
+	walk = func(n ast.Node) {
+		if n == nil || bad {
+			return
+		}
+		switch x := n.(type) {
+		case *ast.CallExpr:
+			if id, ok := x.Fun.(*ast.Ident); ok && (id.Name == "__forall" || id.Name == "__exists") && len(x.Args) == 2 {
+				if b, ok := x.Args[0].(*ast.Ident); ok {
+					was := bound[b.Name]
+					bound[b.Name] = true
+					walk(x.Args[1])
+					bound[b.Name] = was
+					return
+				}
+			}
+			// the function position is a spec function / builtin / pred name, not a variable
+			for _, a := range x.Args {
+				walk(a)
+			}
+			return
+		case *ast.SelectorExpr:
+			if id, ok := x.X.(*ast.Ident); ok {
+				if _, isVar := env.vars[id.Name]; !isVar && env.findPackage(id.Name) != nil {
+					return // pkg.Name
+				}
+			}
+			walk(x.X)
+			return
+		case *ast.Ident:
+			name := x.Name
+			if bound[name] || name == "nil" || name == "true" || name == "false" || name == "result" || name == "self" {
+				return
+			}
+			if _, ok := env.vars[name]; ok {
+				return
+			}
+			if env.contract != nil {
+				for _, l := range env.contract.Lets {
+					if l.Name == name {
+						return
+					}
+				}
+			}
+			if _, ok := tr.g.specs.Consts[name]; ok {
+				return
+			}
+			if _, ok := tr.g.specs.Ghosts[name]; ok {
+				return
+			}
+			if env.pkg != nil && env.pkg.Scope().Lookup(name) != nil {
+				return
+			}
+			bad = true
+			return
+		case *ast.BasicLit:
+			return
+		}
+		ast.Inspect(n, func(m ast.Node) bool {
+			if m == n || m == nil {
+				return true
+			}
+			if ex, ok := m.(ast.Expr); ok {
+				walk(ex)
+				return false
+			}
+			return true
+		})
+	}
+	walk(e)
+	return bad
+}
+
 func ghostType(gv *GhostVar) types.Type {
 	switch gv.Type {
+	case "map2":
+		return tGhostMap2
 	case "int":
 		return tInt
 	case "bool":
@@ -325,8 +418,7 @@ func ghostType(gv *GhostVar) types.Type {
 
 func (env *Env) ghost(gv *GhostVar) Val {
 	t := ghostType(gv)
-	c := comps(t)[0]
-	return Val{T: t, C: []Term{env.cur().get(env.tr.e, "G$"+gv.Name, c.Sort)}}
+	return Val{T: t, C: []Term{env.cur().get(env.tr.e, "G$"+gv.Name, ghostSort(gv))}}
 }
 
 func (env *Env) selectField(base Val, name string) Val {
@@ -390,6 +482,12 @@ func (env *Env) index(x *ast.IndexExpr) Val {
 		env.points = append(env.points, i.C[0])
 	}
 	st := env.cur()
+	if b.T == types.Type(tGhostMap2) && len(b.C) == 1 && len(i.C) == 1 {
+		return Val{T: tGhostRow, C: []Term{sel(b.C[0], i.C[0])}}
+	}
+	if b.T == types.Type(tGhostRow) && len(b.C) == 1 && len(i.C) == 1 {
+		return Val{T: tInt, C: []Term{sel(b.C[0], i.C[0])}}
+	}
 	switch u := under(b.T).(type) {
 	case *types.Slice:
 		if len(b.C) != 4 {
@@ -667,6 +765,19 @@ func (env *Env) callExpr(x *ast.CallExpr) Val {
 			return Val{T: tBool, C: []Term{or(alts...)}}
 		}
 		return Val{T: tBool, C: []Term{qt}}
+	case "upd":
+		// upd(row, key, value): a ghost-map row with one entry replaced (quantifier-free frame for map-like ghosts)
+		if len(x.Args) == 3 {
+			r, k, v := env.eval(x.Args[0]), env.eval(x.Args[1]), env.eval(x.Args[2])
+			if r.T == types.Type(tGhostRow) && len(r.C) == 1 && len(k.C) == 1 && len(v.C) == 1 {
+				val := v.C[0]
+				if val.Sort == SBool {
+					val = ite(val, intT(1), intT(0))
+				}
+				return Val{T: tGhostRow, C: []Term{store(r.C[0], k.C[0], val)}}
+			}
+		}
+		return env.fail("upd(row, key, value) needs a ghost-map row")
 	case "len":
 		v := env.eval(x.Args[0])
 		switch u := under(v.T).(type) {
